@@ -227,7 +227,7 @@ func (g *gen) genStatement(typ types.Type, this, that string) error {
 				if field.Private() && external {
 					thisField, thatField = field.Name("thisv", g.unsafePkg), field.Name("thatv", g.unsafePkg)
 				} else {
-					thisField, thatField = field.Name(this, nil), field.Name(that, nil)
+					thisField, thatField = field.Name(wrap(this), nil), field.Name(wrap(that), nil)
 				}
 				fieldStr, err := g.field(thisField, thatField, fieldType)
 				if err != nil {
